@@ -17,8 +17,8 @@ import (
 	"sync"
 	"time"
 
-	ref "verif.local/harness/ref/obfs4"
 	"verif.local/harness/o4"
+	ref "verif.local/harness/ref/obfs4"
 	"verif.local/harness/vt"
 	"verif.local/harness/wire"
 )
@@ -310,6 +310,22 @@ func probe(b, other *o4.Bridge, accepted []byte, rng *mrand.Rand, c *conn) bool 
 					data = request(other.ID, rng, 0, 100)
 				case "replay":
 					data = accepted
+				case "loworder0", "loworder1":
+					// a client key that is a low-order point (valid mark and MAC for it): ntor must refuse, the server stays silent
+					var repr [32]byte
+					if st.V == "loworder1" {
+						var one [32]byte
+						one[0] = 1
+						r, ok := ref.PublicToRepresentative(one, byte(rng.Intn(4)))
+						if ok {
+							repr = r
+						}
+					} else {
+						repr[31] = byte(rng.Intn(4)) << 6 // representative 0 (decodes to u = 0), the two ignored top bits vary
+					}
+					kp := &ref.Keypair{Representative: repr, Public: ref.RepresentativeToPublic(repr)}
+					hs := &ref.ClientHandshake{KP: kp, ID: b.ID.PublicOnly(), Hour: ref.EpochHour(time.Now()), PadLen: 100}
+					data = hs.Request(junk(rng, 100+rng.Intn(500)))
 				case "shortpad":
 					data = request(b.ID, rng, 0, 76-rng.Intn(77)) // below the minimum client padding: never accepted
 				default:
